@@ -318,5 +318,5 @@ def run(ctx):
 
     # cells and rows of 16 MiB and more are split by the framer: the framing clauses (C04's rules) are part of
     # `arrives unchanged` for the size classes this property quantifies over
-    import rules.C04 as C04
-    C04.run(ctx, configs=["tls"])
+    import rules._wire as W_
+    W_.run_outbound(ctx)
